@@ -74,6 +74,15 @@ def main():
             shutil.copy(os.path.join(src, f), os.path.join(dst, f))
         if res.get("applied_3way"):
             open(os.path.join(dst, "patch.diff"), "w").write(res.pop("rebased_patch", open(os.path.join(src, "patch.diff")).read()))
+        old = {}
+        try:
+            old = json.load(open(os.path.join(dst, "meta.json"))).get("verification", {})
+        except Exception:
+            pass
+        if no_suite and old.get("suite_passes") is not None:  # keep the earlier full-suite verdict
+            res["suite_passes"] = old["suite_passes"]
+            res["suite_tail"] = old.get("suite_tail")
+            res["suite_verified_at_repo_commit"] = old.get("suite_verified_at_repo_commit", old.get("verified_at_repo_commit"))
         meta["verification"] = res
         json.dump(meta, open(os.path.join(dst, "meta.json"), "w"), indent=1)
     print(json.dumps({"id": sid, **{k: res.get(k) for k in ("confirmed", "caught", "demo_on_clean", "demo_with_patch", "suite_passes", "patch_applies")},
